@@ -15,12 +15,16 @@ import (
 	"fmt"
 	"io"
 	"net/http"
+	"net/url"
 	"strings"
 	"unicode/utf8"
+
+	"github.com/gobwas/httphead"
 )
 
 var _ = bytes.Equal
 var _ = fmt.Errorf
+var _ = httphead.Option{}
 var _ *bufio.Reader
 var _ http.ResponseWriter
 var _ = strings.IndexByte
@@ -833,9 +837,16 @@ func ufReaderOf(r io.Reader) *bufio.Reader   { return nil }
 func ufBuffered(b *bufio.Reader, at int) int { return 0 }
 func ufLineErr(b *bufio.Reader, i int) error { return nil }
 func linePos(b *bufio.Reader) int            { return inPos(io.Reader(b)) }
-func eqvStr(a, b string) bool                { return a == b }
-func wrOf(b *bufio.Writer) io.Writer         { return b }
-func rdOf(b *bufio.Reader) io.Reader         { return b }
+func iteStr(c bool, a, b string) string {
+	if c {
+		return a
+	}
+	return b
+}
+
+func eqvStr(a, b string) bool        { return a == b }
+func wrOf(b *bufio.Writer) io.Writer { return b }
+func rdOf(b *bufio.Reader) io.Reader { return b }
 
 //@ func pbufio.GetReader
 //@   ensures [r] result != nil && result == ufReaderOf(w)
@@ -865,9 +876,43 @@ func rdOf(b *bufio.Reader) io.Reader         { return b }
 //@   trusted
 //@   assigns bytes(dst)
 
+// What a *bufio.Writer was asked to write, call by call (history as an uninterpreted function).
+func ufWritten(b *bufio.Writer, call int) string { return "" }
+func ufRequestURI(u *url.URL) string             { return "" }
+func bwCalls(b *bufio.Writer) int                { return outCalls(wrOf(b)) }
+
+//@ func bufio.Writer.WriteString
+//@   ensures [rec] eqvStr(ufWritten(b, old(bwCalls(b))), s) && bwCalls(b) == old(bwCalls(b))+1
+//@   assigns outstream(wrOf(b))
+
+//@ func bufio.Writer.Write
+//@   ensures [rec] bwCalls(b) == old(bwCalls(b))+1
+//@   assigns outstream(wrOf(b))
+
+//@ func bufio.Writer.WriteByte
+//@   ensures [rec] bwCalls(b) == old(bwCalls(b))+1
+//@   assigns outstream(wrOf(b))
+
+//@ func url.URL.RequestURI
+//@   ensures [uf] eqvStr(result, ufRequestURI(u))
+//@   assigns nothing
+
+//@ func httphead.WriteOptions
+//@   assigns outstream(dest)
+
+//@ iface ws.HandshakeHeader.WriteTo(w io.Writer) (n int64, err error)
+//@   assigns outstream(w)
+
+// The request line the dialer writes: GET, the URL's request-URI, HTTP/1.1 (C10).
 //@ func httpWriteUpgradeRequest
-//@   trusted
+//@   props C10
+//@   requires [bw] bw != nil && u != nil
+//@   ensures  [get]  len(ufWritten(bw, old(bwCalls(bw)))) >= 4 && ufWritten(bw, old(bwCalls(bw)))[0] == 'G' && ufWritten(bw, old(bwCalls(bw)))[1] == 'E' && ufWritten(bw, old(bwCalls(bw)))[2] == 'T' && ufWritten(bw, old(bwCalls(bw)))[3] == ' '
+//@   ensures  [uri]  exists(0, 4, func(j int) bool { return eqvStr(ufWritten(bw, old(bwCalls(bw))+j), ufRequestURI(u)) })
+//@   ensures  [host] exists(0, 8, func(j int) bool { return eqvStr(ufWritten(bw, old(bwCalls(bw))+j), iteStr(len(host) == 0, u.Host, host)) })
 //@   assigns outstream(wrOf(bw))
+//@   loop 1 invariant [calls] bwCalls(bw) >= old(bwCalls(bw))+6
+//@   loop 1 assigns outstream(wrOf(bw))
 
 //@ func matchSelectedExtensions
 //@   trusted
